@@ -57,7 +57,7 @@ type c11Batch struct {
 	UDP       int
 }
 
-var c11Patterns = []string{"stray-then-bare-error", "stray-only", "stray-then-right", "stale-previous", "unsolicited-twice", "reordered", "busy-stray-giveup", "encapsulated", "reflected", "stale-previous-same-cmd-value", "busy-then-stray-then-right", "lost-then-stray-then-right"}
+var c11Patterns = []string{"lost-only", "stray-then-bare-error", "stray-only", "stray-then-right", "stale-previous", "unsolicited-twice", "reordered", "busy-stray-giveup", "encapsulated", "reflected", "stale-previous-same-cmd-value", "busy-then-stray-then-right", "lost-then-stray-then-right"}
 
 func init() {
 	register(&Check{
@@ -310,6 +310,10 @@ func c11Run(run *ev.Run, o c11One) {
 			}
 		}
 		switch o.Pattern {
+		case "lost-only":
+			// nothing comes back at all (inside a session that ends the command; outside, the
+			// bounded context does): whatever is returned, it is not a response
+			return nil, nil
 		case "stray-only":
 			strays++
 			return wrap(strayMsg(last)), nil
@@ -431,6 +435,13 @@ func c11Run(run *ev.Run, o c11One) {
 	}
 	if opB.OEM && len(wantBody) >= 3 {
 		wantBody = wantBody[3:]
+	}
+	if o.Pattern == "lost-only" {
+		run.Nontrivial(fmt.Sprintf("lost %d %v %v", o.B, o.InSession, o.Typed))
+		if err == nil {
+			run.Violation("C11:result-without-response", fmt.Sprintf("%s (NetFn %#x cmd %#x, in-session %v, library command type %v): every reply was lost, yet the call returned completion code %v, body %x and no error - a result that comes from no response at all", opB.Name, opB.NetFn, opB.Cmd, o.InSession, o.Typed, code, got), cs, nil)
+		}
+		return
 	}
 	if err == nil {
 		if o.Pattern == "stray-only" || o.Pattern == "busy-stray-giveup" {
